@@ -1,35 +1,113 @@
 (* Props/C06.v -- Garbage collection is safe against concurrently committing transactions.
-   Statement only; proof in Proofs/GCRaceProofs.v.
+   Statements only; proofs in Proofs/GCRaceProofs.v.
 
-   Event lists interleave arbitrarily: clock ticks (any non-negative amounts: a data file may be far
-   older than the grace period when its transaction commits), the steps of any number of
-   transactions (marker write, file write, pointer flip, marker removal, or rollback) and the steps
-   of collection runs (marker load, metadata read, listings, deletions; several runs in sequence,
-   each with its own grace period).  A listing is enabled only while the run has lasted less than
-   its grace period -- the property's proviso. *)
+   Event lists interleave arbitrarily: clock ticks (any non-negative amounts, anywhere -- in particular
+   between a marker and its file: a slow write; and between a file and its commit: a data file may be far
+   older than the grace period when its transaction commits), the steps of any number of transactions on
+   any number of marker-protected files (marker write, file write, pointer flip, marker removal; rollback;
+   abandoning the files of a lost commit attempt; staging a PRE-BUILT file of any age and adopting it:
+   marker, then a look for an announced collection run) and the steps of collection runs (announcement,
+   marker load with the run's abandonment timeout, deletion of markers the REGENERATED kernel of _load_inflight_protection
+   classifies as abandoned, metadata read, listings, deletions guarded by the REGENERATED guard of
+   _gc_prefix; several runs in sequence, each with its own grace period and timeout).  A listing is enabled
+   only while the run has lasted less than its grace period -- the property's proviso. *)
 From Coq Require Import ZArith List Bool Arith.
-Require Import DS.Model.GCRace DS.Proofs.GCRaceProofs.
+Require Import DS.Model.GCRaceBase DS.Gen.GenGCRace DS.Model.GCRace DS.Proofs.GCRaceProofs.
 Import ListNotations.
 Open Scope Z_scope.
 
 Theorem C06_gc_race_safe : forall orph evs,
   let w := grun (ginit orph) evs in
-  (forall t, g_ref w t = true -> g_present w t = true)          (* files referenced by the committed table exist *)
-  /\ (forall t, g_tpc w t = TWritten -> g_present w t = true)    (* files of transactions still in flight exist *)
-  /\ g_deleted w = [].                                           (* the collector deleted no transaction's file *)
+  forall f, g_swept w f = false ->                               (* f's marker was never treated as abandoned *)
+    (g_ref w f = true -> g_present w f = true)                   (* referenced by the committed table: exists *)
+    /\ (g_tpc w f = TWritten -> g_present w f = true)            (* of a transaction still in flight: exists *)
+    /\ (In f (g_deleted w) ->                                    (* deleted by the collector: neither of the two, for good *)
+          g_present w f = false /\ g_ref w f = false /\ g_tpc w f <> TWritten).
 Proof. exact gc_race_safe. Qed.
 Print Assumptions C06_gc_race_safe.
 
-(* Non-vacuity: transaction 0 writes its file at time 0; 5000 ms pass (the file is now far older than
-   the 1000 ms grace period); a collection starts: it loads the markers, then reads the metadata; the
-   transaction commits and removes its marker; the collector lists: the file is unreferenced in its
-   snapshot and old, but protected by the marker snapshot -> GDel 0 is rejected; an old orphan IS
-   deleted. *)
+(* A marker is treated as abandoned only if it is older than the abandonment timeout: in every interleaving
+   whose runs use a timeout of at least T, a swept marker was written more than T ago -- whatever the grace
+   period, however slow the write of the file, whether or not the file exists yet. *)
+Theorem C06_swept_only_abandoned : forall orph evs T,
+  Forall (timeout_ok T) evs ->
+  let w := grun (ginit orph) evs in
+  forall f, g_swept w f = true -> g_mkmtime w f + T < g_now w.
+Proof. exact swept_only_abandoned. Qed.
+Print Assumptions C06_swept_only_abandoned.
+
+(* ... and until then the marker of a file in flight stays in place through every collection run. *)
+Theorem C06_unswept_marker_kept : forall orph evs,
+  let w := grun (ginit orph) evs in
+  forall f, g_swept w f = false ->
+    (g_tpc w f = TMarked \/ g_tpc w f = TWritten \/ g_tpc w f = TFlipped \/ g_tpc w f = TAdoptM) -> g_marker w f = true.
+Proof. exact unswept_marker_kept. Qed.
+Print Assumptions C06_unswept_marker_kept.
+
+(* Adoption of a pre-built file as Transaction.append_files did it BEFORE the repair (no marker, no look at
+   running collections; `gstep_unrepaired`) refutes the safety statement: a staged file older than the grace
+   period, adopted and committed between a run's metadata read and its listing, is deleted although the
+   committed table references it (the run lasted 4 ms against a grace period of 1 h).  The repaired adoption
+   (`TAdoptMark`; `TAdopt` only while no run is announced) is part of the machine C06_gc_race_safe is about. *)
+Theorem C06_unmarked_adoption_refuted :
+  exists evs w, grun_strict_unrepaired (ginit []) evs = Some w
+    /\ g_swept w 0%nat = false /\ g_ref w 0%nat = true /\ g_present w 0%nat = false.
+Proof. exact unmarked_adoption_refuted. Qed.
+Print Assumptions C06_unmarked_adoption_refuted.
+
+(* The regenerated decision kernels, as the invariant uses them (for all inputs). *)
+Theorem C06_marker_kernel : forall now timeout mt,
+  (gen_marker_action (gen_marker_age_ok (gen_marker_cutoff now timeout) (Some mt)) = MSweep -> mt + timeout < now)
+  /\ gen_marker_action (gen_marker_age_ok (gen_marker_cutoff now timeout) None) = MProtect
+  /\ gen_sweep_failure_protects = true.
+Proof. exact marker_kernel. Qed.
+Print Assumptions C06_marker_kernel.
+
+Theorem C06_delete_kernel : forall now grace covered mt,
+  gen_delete_guard covered mt (gen_sweep_cutoff now grace) = true -> covered = false /\ mt + grace < now.
+Proof. exact delete_kernel. Qed.
+Print Assumptions C06_delete_kernel.
+
+(* Non-vacuity: file 0's marker is written at time 0 and the file lands only 5000 ms later (a slow write,
+   far longer than the 1000 ms grace period); a first collection runs inside that gap: the marker is young
+   against the 24 h abandonment timeout, GSweep 0 is rejected; the file is written; another 5000 ms pass
+   (the file is now far older than the grace period); a second collection starts: it loads the markers,
+   then reads the metadata; the transaction commits and removes its marker; the collector lists: the file
+   is unreferenced in its snapshot and old, but protected by the marker snapshot -> GDel 0 is rejected; an
+   old orphan IS deleted. *)
 Example C06_nonvacuous :
-  let evs := [TMarkW 0; TDataW 0; Tick 5000; GMarks; GMeta; TFlip 0; TMarkD 0; Tick 10; GList 1000; GDelOrphan 7; GEnd]%nat in
+  let evs := [TMarkW 0; Tick 5000; GAnnounce; GMarks 86400000; GMeta; GList 1000; GEnd; TDataW 0; Tick 5000;
+              GAnnounce; GMarks 86400000; GMeta; TFlip 0; TMarkD 0; Tick 10; GList 1000; GDelOrphan 7; GEnd]%nat in
   let w := grun (ginit [(7%nat, 0)]) evs in
   grun_strict (ginit [(7%nat, 0)]) evs 0 = inl w
-  /\ g_ref w 0%nat = true /\ g_present w 0%nat = true /\ g_orphans w = []
-  /\ gstep (grun (ginit [(7%nat, 0)]) (firstn 9 evs)) (GDel 0%nat) = None
+  /\ g_ref w 0%nat = true /\ g_present w 0%nat = true /\ g_orphans w = [] /\ g_swept w 0%nat = false
+  /\ gstep (grun (ginit [(7%nat, 0)]) (firstn 4 evs)) (GSweep 0%nat) = None
+  /\ gstep (grun (ginit [(7%nat, 0)]) (firstn 16 evs)) (GDel 0%nat) = None
   /\ g_mtime w 0%nat < g_cutoff w.
 Proof. vm_compute. repeat split; try reflexivity. Qed.
+
+(* The hypothesis `g_swept w f = false` cannot be dropped, and it is the ONLY way protection is lost: with
+   an abandonment timeout shorter than the slow write (here 1000 ms against a 5000 ms write), the first run
+   deletes the live transaction's marker; the file lands unprotected; once it is older than the grace
+   period a second run, concurrent with the commit, deletes it; the commit publishes a snapshot that
+   references a deleted file. *)
+Example C06_swept_marker_loses_file :
+  let evs := [TMarkW 0; Tick 5000; GAnnounce; GMarks 1000; GSweep 0; GMeta; GList 1000; GEnd; TDataW 0; Tick 5000;
+              GAnnounce; GMarks 1000; GMeta; GList 1000; GDel 0; TFlip 0; GEnd]%nat in
+  let w := grun (ginit []) evs in
+  grun_strict (ginit []) evs 0 = inl w
+  /\ g_swept w 0%nat = true /\ g_ref w 0%nat = true /\ g_present w 0%nat = false /\ g_deleted w = [0%nat].
+Proof. vm_compute. repeat split; reflexivity. Qed.
+
+(* Non-vacuity of the adoption steps: a pre-built file ten hours old is staged and adopted (marker, no run
+   announced, file in place); a collection run (grace 1 h) starts afterwards and sees the marker; the
+   transaction commits inside the run; the run lists: GDel 0 is rejected; the file survives.  A second
+   pre-built file is staged while a run is announced: its adoption is refused (TAdopt is not enabled). *)
+Example C06_adoption_nonvacuous :
+  let evs := [TStage 0 (-36000000); Tick 1; TAdoptMark 0; TAdopt 0; Tick 1; GAnnounce; GMarks 86400000; GMeta;
+              TFlip 0; TMarkD 0; Tick 1; TStage 1 (-36000000); TAdoptMark 1; GList 3600000]%nat in
+  let w := grun (ginit []) evs in
+  grun_strict (ginit []) evs 0 = inl w
+  /\ g_ref w 0%nat = true /\ g_present w 0%nat = true
+  /\ gstep w (GDel 0%nat) = None /\ gstep w (TAdopt 1%nat) = None /\ g_mtime w 0%nat < g_cutoff w.
+Proof. vm_compute. repeat split; reflexivity. Qed.
